@@ -317,6 +317,9 @@ func runC15(c *Check) {
 	c.runningMinimum()
 	c.sameFamily()
 	c.absolutePercentage()
+	c.factorListFilledPerColumn("C15-R10")
+	c.labelWithoutIntegerDetour()
+	c.outputUnitFromDisplayedValues()
 }
 
 // R8: two value types with different units are compatible only when one and the same
